@@ -102,6 +102,65 @@ CLEAN_SAMPLES = [
 ]
 
 
+def column_order_rule(ctx, prop, rid, sets=None):
+    """Permuting the columns of a sheet does not change what a row means: the header grouping (process_header +
+    process_row + merge_dicts) is evaluated abstractly for every permutation of small column sets that mix plain,
+    translated and nested (bind::) spellings of the same field, and the nested results must all be equal."""
+    import itertools as _it
+    r = Rule(prop, rid, "column order does not change the grouped row", floor=3,
+             necessary="a cell overwritten or dropped because of the position of its column loses a translation / a bind attribute")
+    ph = ctx.func("pyxform.parsing.sheet_headers:process_header", rid)
+    pr = ctx.func("pyxform.parsing.sheet_headers:process_row", rid)
+    sh = ctx.consts.get("pyxform.aliases", "survey_header", rid)
+    cols = set(ctx.consts.get("pyxform.question", "SELECT_QUESTION_FIELDS", rid))
+    sets = sets or COLUMN_SETS
+    it = ctx.interp(rid)
+
+    def canon(x):
+        if isinstance(x, dict):
+            return tuple(sorted((str(k), canon(v)) for k, v in x.items()))
+        return x
+
+    for name, headers in sets.items():
+        results = {}
+        failed = None
+        dbl = any("::" in h for h in headers)
+        for perm in _it.permutations(headers):
+            try:
+                key = {}
+                for h in perm:
+                    it.reset([])
+                    _nh, toks = it.call_function(ph, [], {"header": h, "use_double_colon": dbl, "header_aliases": sh, "header_columns": cols}, None, ph.node)
+                    key[h] = toks
+                it.reset([])
+                row = {h: f"cell<{h}>" for h in perm}
+                out = it.call_function(pr, [], {"sheet_name": "survey", "row": row, "header_key": key, "default_language": "default"}, None, pr.node)
+            except Raised as e:
+                failed = f"{perm}: raises {e.exc_name}{e.exc_args}"
+                break
+            results.setdefault(canon(out), []).append(perm)
+        if failed:
+            r.fail(f"process_row[{name}]", f"evaluates ({failed})", pr.loc())
+            continue
+        ok = len(results) == 1
+        why = ""
+        if not ok:
+            groups = sorted(results.items(), key=lambda kv: -len(kv[1]))
+            why = f"{len(results)} different results; e.g. order {list(groups[-1][1][0])} gives {dict(groups[-1][0]) if groups[-1][0] else groups[-1][0]}"
+        r.check(ok, f"process_row[{name}]", f"all {sum(len(v) for v in results.values())} column orders give the same grouped row", pr.loc(), why_fail=why[:300])
+    return r
+
+
+COLUMN_SETS = {
+    "label + label::French (fr)": ["label", "label::French (fr)"],
+    "hint + hint::French (fr) + label": ["hint", "hint::French (fr)", "label"],
+    "constraint_message + constraint_message::French (fr) + bind::relevant + required": ["constraint_message", "constraint_message::French (fr)", "bind::relevant", "required"],
+    "required_message::French (fr) + required_message + relevant": ["required_message::French (fr)", "required_message", "relevant"],
+    "bind::relevant + bind::required + bind::jr:constraintMsg": ["bind::relevant", "bind::required", "bind::jr:constraintMsg"],
+    "image + image::French (fr) + audio": ["image", "image::French (fr)", "audio"],
+}
+
+
 def cell_cleaning_rule(ctx, prop, rid):
     """Cleaning of cell text is exactly the documented one: smart quotes straightened; for the survey sheet only, outer
     whitespace stripped and inner runs collapsed.  The cleaner is evaluated abstractly over an adversarial alphabet
@@ -316,6 +375,7 @@ def run(ctx):
     r4.check(out == [{"type": "photo"}, {"type": "text"}, {}], "dealias_types", "type aliases are replaced, other rows untouched", dt.loc(), why_fail=repr(out))
     rules.append(r4)
     rules.append(cell_cleaning_rule(ctx, "C13", "C13.R6"))
+    rules.append(column_order_rule(ctx, "C13", "C13.R7"))
 
     # ------------------------------------------------------------------ R5
     r5 = Rule("C13", "C13.R5", "blank rows keep numbering: rows are numbered by sheet position and blank rows are skipped, not removed", floor=4,
